@@ -163,11 +163,15 @@ def session(kind: str, names: list[str], stagger: int, plan: SendPlan, after: li
             done = [i + 1 for i, p in enumerate(P) if p and any(used[i])]
             cand = [i + 1 for i, p in enumerate(P) if p and not all(used[i])]
             failed.append(cand[0] if cand else (done[-1] if done else 1))
+    # packets written to a link after a newer connection had been adopted never reach the gateway
+    accepted = [(e["t"], e["k"]) for e in raw if e["e"] == "OpenResult" and e["r"] == "accept"]
+    stale = sum(1 for e in raw if e["e"] == "Write" and not (kind == "waveshare" and len(e.get("data", [])) == 20 and e["data"][2] == 0x02)
+                and any(k > e["conn"] and t < e["t"] for t, k in accepted))
     statuses = [e["s"] for e in raw if e["e"] == "Status"][1:]
     opens = sum(1 for e in raw if e["e"] == "Open")
     bad = [i + 1 for i, nm in enumerate(order) if nm.startswith("bad") or kind == "actisense"]
     injected = plan.fail_write is not None or plan.fail_drain is not None or eof_at is not None
-    return {"n": [len(p) for p in P], "wire": wire, "failed": sorted(set(failed)), "statuses": statuses, "opens": opens,
+    return {"n": [len(p) for p in P], "wire": wire, "failed": sorted(set(failed)), "statuses": statuses, "opens": opens, "stale": stale,
             "bad": bad, "clean": not injected, "complete": not injected or eof_at is not None}, order
 
 
@@ -198,7 +202,7 @@ def bind(chk: Check, tier: str, seed: int):
         # the link is replaced (end of stream seen by the receive loop) while a multi-frame send is stalled between two
         # of its frames by back-pressure; another send starts on the new link: still one message at a time
         for eof_at in (1.07, 1.12, 1.22):
-            for t2 in (eof_at + 0.03, eof_at + 0.08, eof_at + 0.2):
+            for t2 in (eof_at - 0.03, eof_at + 0.03, eof_at + 0.08, eof_at + 0.2):      # (before: queued on the lock across the replacement)
                 for second in ("multi2", "single"):
                     plan = SendPlan(drain_mask="all")
                     r, order = session(kind, ["multi"], 0, plan, [], M, eof_at=eof_at, timed=((t2, second),))
